@@ -1,4 +1,125 @@
-import BipVerif.Model.Ecc
+/-
+C12 — elliptic-curve key classes, adapter layer only: which byte strings are private keys, the
+canonical form `FromBytes` returns for public keys, the optional `0x00` prefix of the ed25519
+classes, RFC 8032 clamping, SEC1 uncompressed/hybrid parsing.  Curve arithmetic (scalar
+multiplication, square roots, the Edwards on-curve test) is opaque — it is differentially tested.
+Proofs in `BipVerif/Lemmas/Ecc.lean`.
+-/
+import BipVerif.Lemmas.Ecc
+
 namespace BipVerif.Props.C12
-theorem placeholder : True := trivial
+open BipVerif BipVerif.Prim BipVerif.Model BipVerif.Model.EccLemmas
+
+/-! ### 1. private keys -/
+
+theorem priv_valid_iff_secp256k1 (b : Bytes) :
+    privValid .secp256k1 b = true ↔
+      b.length = 32 ∧ 0 < Bytes.toNatBE b ∧ Bytes.toNatBE b < CurveT.secp256k1.order :=
+  EccLemmas.priv_valid_iff_secp256k1 b
+
+theorem priv_valid_iff_nist256p1 (b : Bytes) :
+    privValid .nist256p1 b = true ↔
+      b.length = 32 ∧ 0 < Bytes.toNatBE b ∧ Bytes.toNatBE b < CurveT.nist256p1.order :=
+  EccLemmas.priv_valid_iff_nist256p1 b
+
+theorem priv_valid_iff_ed25519 (b : Bytes) : privValid .ed25519 b = true ↔ b.length = 32 :=
+  EccLemmas.priv_valid_iff_ed25519 b
+
+theorem priv_valid_iff_ed25519Blake2b (b : Bytes) : privValid .ed25519Blake2b b = true ↔ b.length = 32 :=
+  EccLemmas.priv_valid_iff_ed25519Blake2b b
+
+theorem priv_valid_iff_kholaw (b : Bytes) : privValid .ed25519Kholaw b = true ↔ b.length = 64 :=
+  EccLemmas.priv_valid_iff_kholaw b
+
+theorem priv_valid_iff_monero (b : Bytes) :
+    privValid .ed25519Monero b = true ↔ b.length = 32 ∧ Bytes.toNatLE b < edL :=
+  EccLemmas.priv_valid_iff_monero b
+
+theorem wrong_length_refused (c : CurveT) (b : Bytes) (h : b.length ≠ c.privLen) :
+    privValid c b = false :=
+  EccLemmas.wrong_length_refused c b h
+
+/-! ### 2. canonical public key length -/
+
+theorem pubFromBytes_length (c : CurveT) (b k : Bytes) (h : pubFromBytes c b = some k) :
+    k.length = if c = .ed25519Monero then 32 else 33 :=
+  EccLemmas.pubFromBytes_length c b k h
+
+theorem pubOfPriv_length (c : CurveT) (priv k : Bytes) (h : pubOfPriv c priv = some k) :
+    k.length = if c = .ed25519Monero then 32 else 33 :=
+  EccLemmas.pubOfPriv_length c priv k h
+
+theorem compress_aff_length (c : CurveT) (x y : Nat) :
+    (c.wcurve.compress (.aff x y)).map List.length = some 33 :=
+  EccLemmas.compress_aff_length c x y
+
+theorem coordLen_eq_32 (c : CurveT) : c.wcurve.coordLen = 32 := wcurve_coordLen c
+
+theorem pubFromBytes_ecdsa_input_length (c : CurveT) (hc : c = .secp256k1 ∨ c = .nist256p1) (b k : Bytes)
+    (h : pubFromBytes c b = some k) : b.length = 33 ∨ b.length = 65 :=
+  pubFromBytes_ecdsa_length c hc b k h
+
+/-! ### 3. ed25519 prefix handling -/
+
+theorem ed_strip_prefix (c : CurveT)
+    (hc : c = .ed25519 ∨ c = .ed25519Blake2b ∨ c = .ed25519Kholaw ∨ c = .ed25519Monero)
+    (k : Bytes) (hk : k.length = 32) : pubFromBytes c (0 :: k) = pubFromBytes c k :=
+  EccLemmas.ed_strip_prefix c hc k hk
+
+theorem pubFromBytes_idempotent_ed (c : CurveT)
+    (hc : c = .ed25519 ∨ c = .ed25519Blake2b ∨ c = .ed25519Kholaw ∨ c = .ed25519Monero)
+    (b k : Bytes) (h : pubFromBytes c b = some k) : pubFromBytes c k = some k :=
+  EccLemmas.pubFromBytes_idempotent_ed c hc b k h
+
+theorem pubFromBytes_ed_input_length (c : CurveT)
+    (hc : c = .ed25519 ∨ c = .ed25519Blake2b ∨ c = .ed25519Kholaw ∨ c = .ed25519Monero)
+    (b k : Bytes) (h : pubFromBytes c b = some k) :
+    b.length = 32 ∨ (b.length = 33 ∧ b.head? = some 0) :=
+  EccLemmas.pubFromBytes_ed_input_length c hc b k h
+
+/-! ### 4. clamping -/
+
+theorem edClamp_spec (h : Bytes) : edClamp h % 8 = 0 ∧ 2 ^ 254 ≤ edClamp h ∧ edClamp h < 2 ^ 255 :=
+  EccLemmas.edClamp_spec h
+
+theorem edClamp_eq (h : Bytes) :
+    edClamp h = Bytes.toNatLE (h.take 32) % 2 ^ 254 - Bytes.toNatLE (h.take 32) % 8 + 2 ^ 254 :=
+  EccLemmas.edClamp_eq h
+
+theorem edNoClampScalar_lt (b : Bytes) : edNoClampScalar b < 2 ^ 255 := EccLemmas.edNoClampScalar_lt b
+
+/-! ### 5. SEC1 without curve arithmetic -/
+
+/-- `decode (04 ‖ x ‖ y) = (x, y)` whenever `(x, y)` satisfies the curve equation with reduced
+coordinates (any short-Weierstrass parameters) -/
+theorem sec1_uncompressed_roundtrip (c : WCurve) (x y : Nat) (h : c.onCurve (.aff x y) = true) :
+    (c.uncompressed (.aff x y)).bind c.decode = some (.aff x y) :=
+  EccLemmas.sec1_uncompressed_roundtrip c x y h
+
+theorem sec1_uncompressed_sound (c : WCurve) (rest : Bytes) (P : WPoint)
+    (h : c.decode (4 :: rest) = some P) : c.onCurve P = true ∧ c.uncompressed P = some (4 :: rest) :=
+  decode_04_sound c rest P h
+
+theorem sec1_compress_parity (c : CurveT) (x y : Nat) :
+    c.wcurve.compress (.aff x y) = some (UInt8.ofNat (2 + y % 2) :: Bytes.ofNatBE 32 x) ∧
+    (UInt8.ofNat (2 + y % 2)).toNat = 2 + y % 2 ∧
+    (x < 2 ^ 256 → Bytes.toNatBE (Bytes.ofNatBE 32 x) = x) :=
+  EccLemmas.sec1_compress_parity c x y
+
+theorem pubFromBytes_uncompressed (c : CurveT) (hc : c = .secp256k1 ∨ c = .nist256p1) (x y : Nat)
+    (h : c.wcurve.onCurve (.aff x y) = true) :
+    pubFromBytes c (4 :: Bytes.ofNatBE 32 x ++ Bytes.ofNatBE 32 y) =
+      some (UInt8.ofNat (2 + y % 2) :: Bytes.ofNatBE 32 x) :=
+  EccLemmas.pubFromBytes_uncompressed c hc x y h
+
+theorem hybrid_secp256k1 (x y : Nat) (pfx : UInt8) (hp : pfx = 6 ∨ pfx = 7)
+    (h : Prim.secp256k1.onCurve (.aff x y) = true) :
+    wDecodePub .secp256k1 (pfx :: Bytes.ofNatBE 32 x ++ Bytes.ofNatBE 32 y) =
+      if (y % 2 = 1) = (pfx = 7) then some (.aff x y) else none :=
+  EccLemmas.hybrid_secp256k1 x y pfx hp h
+
+theorem hybrid_nist256p1_refused (pfx : UInt8) (hp : pfx = 6 ∨ pfx = 7) (rest : Bytes) :
+    pubFromBytes .nist256p1 (pfx :: rest) = none :=
+  EccLemmas.hybrid_nist256p1_refused pfx hp rest
+
 end BipVerif.Props.C12
